@@ -235,9 +235,18 @@ func VH_C05_predone() {
 	m := &c05Mon{ctx: vNewRunCtx("run")}
 	m.ctx.cancel(vNondet[bool]("deadlineKind"))
 	m.cancelled = true
-	which := vChoice("shape", 3)
+	which := vChoice("shape", 4)
 	var err error
 	switch which {
+	case 3:
+		// a flow whose START node is a batch node, started through flow.Run
+		vCover("pre-cancelled-flow-starting-with-a-batch-node")
+		b := NewBatchNode().
+			WithPrepFunc(func(ctx context.Context, s *SharedStore) ([]Result, error) { m.calls++; return []Result{NewResult(1)}, nil }).
+			WithExecFunc(func(ctx context.Context, it Result) (Result, error) { m.calls++; return it, nil }).
+			WithPostFunc(func(ctx context.Context, s *SharedStore, items, results []Result) (Action, error) { m.calls++; return "done", nil })
+		f := NewFlow(b)
+		err = f.Run(m.ctx, NewSharedStore())
 	case 0:
 		_, err = Run(m.ctx, c05NewProbe(m, false).node, NewSharedStore())
 	case 1:
